@@ -1119,6 +1119,18 @@ impl Transaction {
                     );
                     return false;
                 }
+                //
+                // the signature only speaks for the key of the first input, so every
+                // other input that carries value must belong to that same key
+                //
+                if self.from.iter().any(|slip| {
+                    slip.amount > 0
+                        && slip.slip_type != SlipType::Bound
+                        && slip.public_key != public_key
+                }) {
+                    error!("ERROR 582040: transaction spends an input that does not belong to its signer");
+                    return false;
+                }
             } else {
                 //
                 // we reach here if we have not already calculated the hash
